@@ -99,6 +99,50 @@ def _note_concrete(en, fname, addr, nbytes, endian):
     fv.append(mine)
 
 
+def _link_sym(en, fname, addr, nbytes, endian):
+    """_link for a word at a symbolic address"""
+    ab, ai, _, _ = parts(addr)
+    key = (fname, ab.get_id(), nbytes, endian)
+    if key in en.linked:
+        return
+    en.linked.add(key)
+    f, g = word_uf(fname, nbytes, endian)
+    e, ei = f(ab), g(ai)
+    bf, bg = byte_uf(fname)
+    order = range(nbytes) if endian == "le" else range(nbytes - 1, -1, -1)
+    cat = z3.Concat(*reversed([bf(ab + bvval(k)) for k in order]))
+    isum = sum(bg(ai + k) * (256 ** n) for n, k in enumerate(order))
+    for k in range(nbytes):
+        bi = bg(ai + k)
+        en._add_int(z3.And(bi >= 0, bi <= 255))
+    bits = 8 * nbytes
+    uns = z3.If(ei < 0, ei + (1 << bits), ei)
+    en.assume_raw(e == cat, uns == isum)
+
+
+def _note_symbolic(en, fname, addr, nbytes, endian):
+    """Opt-in (engine.link_symbolic): views at symbolic addresses that differ by a constant and overlap are linked
+    through the byte view, so a model assigns them consistent content."""
+    if not getattr(en, "link_symbolic", False) or not hasattr(en, "linked"):
+        return
+    sv = en.__dict__.setdefault("symviews", {}).setdefault(fname, [])
+    ab = parts(addr)[0]
+    for (a2, addr2, n2, e2) in sv:
+        if a2.get_id() == ab.get_id() and n2 == nbytes and e2 == endian:
+            return
+    for (a2, addr2, n2, e2) in sv:
+        d = z3.simplify(ab - a2)
+        if not z3.is_bv_value(d):
+            continue
+        d = d.as_signed_long()
+        if -nbytes < d < n2 and not (d == 0 and n2 == nbytes and e2 == endian):
+            if nbytes > 1:
+                _link_sym(en, fname, addr, nbytes, endian)
+            if n2 > 1:
+                _link_sym(en, fname, addr2, n2, e2)
+    sv.append((ab, addr, nbytes, endian))
+
+
 def byte_at(fname, addr):
     f, g = byte_uf(fname)
     ab, ai, _, _ = parts(addr)
@@ -108,6 +152,8 @@ def byte_at(fname, addr):
     _record("B", fname, 1, "le", addr, e)
     if isinstance(addr, int):
         _note_concrete(en, fname, addr, 1, "le")
+    else:
+        _note_symbolic(en, fname, addr, 1, "le")
     return SymInt(_ext(e, 8, False), ei, 0, 255)
 
 
@@ -144,6 +190,8 @@ def word_at(fname, addr, nbytes, endian, signed=False):
     _record("W", fname, nbytes, endian, addr, e)
     if isinstance(addr, int):
         _note_concrete(en, fname, addr, nbytes, endian)
+    else:
+        _note_symbolic(en, fname, addr, nbytes, endian)
     full = _ext(e, bits, signed)
     bounds = getattr(en, "bounds", None)
     b = None
